@@ -99,7 +99,13 @@ class Harness:
         return deco
 
     def enter(self, mid, loc):
-        loc = dict(loc)
+        m0 = self.prog.by_id.get(mid)
+        if m0 is not None and m0.get("_factory"):
+            # methods made by a shared factory def see its closure variables in locals(): keep the parameters only
+            keep = {p["name"] for p in m0["pos"]} | {p["name"] for p in (m0.get("kw") or [])} | {"self"}
+            loc = {k: v for k, v in loc.items() if k in keep}
+        else:
+            loc = dict(loc)
         self.log.append((mid, loc))
         if self.on_enter is not None:
             self.on_enter(mid, loc)
@@ -216,6 +222,24 @@ def render_method(m, is_method, name=None, indent="", decorators=(), spelling=No
     return "\n".join(lines)
 
 
+def render_factory(g, members, is_method, spelling=None):
+    """Several methods produced by ONE `def` statement (a registration helper called once per type): they share the
+    code object of the inner function and differ only in closure values (method id, annotations, defaults)."""
+    proto = dict(members[0], id="MID")
+    names = [p["name"] for p in proto["pos"] + (proto.get("kw") or [])]
+    fparams = ["MID"] + [f"AMID_{n}" for n in names] + [f"DMID_{n}" for n in names]
+    inner = render_method(proto, is_method, name="m", indent="    ", spelling=None)
+    lines = [f"def fac{g}({', '.join(fparams)}):", inner, "    return m"]
+    for m in members:
+        args = [str(m["id"])]
+        for p in m["pos"] + (m.get("kw") or []):
+            args.append(f"A{m['id']}_{p['name']}" if p.get("ann") is not None else "object")
+        for p in m["pos"] + (m.get("kw") or []):
+            args.append(f"D{m['id']}_{p['name']}" if p.get("opt") else "None")
+        lines.append(f"m{m['id']} = fac{g}({', '.join(args)})")
+    return "\n".join(lines)
+
+
 def install_source(src, tag="verif"):
     fname = f"<{tag}:{next(_counter)}:{id(src):x}>"
     lines = src.splitlines(True)
@@ -276,7 +300,15 @@ class Program:
                 parts.append(render_method(m, True, name="f", indent="    ", decorators=decos, spelling=spelling))
             src = "\n".join(parts) + "\n"
         else:
-            src = "\n\n".join(render_method(m, self.is_method, spelling=spelling) for m in self.methods) + "\n"
+            groups = [g for g in (pspec.get("factories") or []) if len(g) >= 1]
+            grouped = {i for g in groups for i in g}
+            chunks = [render_method(m, self.is_method, spelling=spelling) for m in self.methods if m["id"] not in grouped]
+            for gi, g in enumerate(groups):
+                members = [self.by_id[i] for i in g]
+                for m in members:
+                    m["_factory"] = True
+                chunks.append(render_factory(gi, members, self.is_method))
+            src = "\n\n".join(chunks) + "\n"
         self.src = src
         self.fname = install_source(src)
         self.glb = glb
